@@ -1036,7 +1036,7 @@ func (c *Ctx) execPanic(st *State, fr *Frame, x *ssa.Panic) {
 }
 
 // nonEscaping: the address of the Alloc is only used for field/element addressing, loads and stores.
-func nonEscaping(a *ssa.Alloc) bool {
+func nonEscaping(a ssa.Value) bool {
 	seen := map[ssa.Value]bool{}
 	var ok func(v ssa.Value) bool
 	ok = func(v ssa.Value) bool {
@@ -1066,6 +1066,21 @@ func nonEscaping(a *ssa.Alloc) bool {
 			case *ssa.IndexAddr:
 				if x.X != v || !ok(x) {
 					return false
+				}
+			case *ssa.MakeClosure:
+				// captured by a closure of this function that is only ever called directly (never
+				// stored or passed on): the cell stays private as long as the closure body itself
+				// only loads/stores through it
+				if !closureOnlyCalled(x) {
+					return false
+				}
+				fn := x.Fn.(*ssa.Function)
+				for i, b := range x.Bindings {
+					if b == v {
+						if i >= len(fn.FreeVars) || !ok(fn.FreeVars[i]) {
+							return false
+						}
+					}
 				}
 			default:
 				return false
@@ -1127,4 +1142,28 @@ func (c *Ctx) sentinelConst(full string) string {
 	n := "sentinel_" + sanitize(full)
 	c.reg.AddDecl("sentinel:"+full, "(declare-const "+n+" Iface)\n(assert (not (= "+n+" nil_iface)))")
 	return n
+}
+
+func closureOnlyCalled(mc *ssa.MakeClosure) bool {
+	refs := mc.Referrers()
+	if refs == nil {
+		return false
+	}
+	for _, r := range *refs {
+		switch y := r.(type) {
+		case *ssa.DebugRef:
+		case *ssa.Call:
+			if y.Call.Value != mc {
+				return false
+			}
+			for _, a := range y.Call.Args {
+				if a == mc {
+					return false
+				}
+			}
+		default:
+			return false
+		}
+	}
+	return true
 }
